@@ -108,7 +108,12 @@ HMeCheck(t) ==
   /\ Rest(t)
 HCSilent ==
   /\ l <= TraceLen /\ Has(Trace[l], "t")
-  /\ LET t == Trace[l].t IN (pc[t] \in {"gadoc", "peekread"} /\ Act(t)) \/ HMeCheck(t)
+  /\ LET t == Trace[l].t IN
+       \/ (pc[t] \in {"gadoc", "peekread"} /\ Act(t))
+       \/ HMeCheck(t)
+       \* Peek's TryRLock happened somewhere between its PeekGet and its return: besides the lazy position it may be placed right
+       \* before a step of another thread that works on the same value (there the value lock is contended and Peek may read absent)
+       \/ (Trace[l].a = "Step" /\ \E u \in Threads \ {t} : pc[u] = "peekread" /\ th[u].v # 0 /\ th[u].v = th[t].v /\ Act(u))
   /\ UNCHANGED <<l, mode, hv>>
 HCEnd ==
   /\ Ev("End")
